@@ -12,6 +12,7 @@ CONSTANTS
   DEV_NameCase = FALSE
   DEV_DefLocator = TRUE
   DEV_KindBound = TRUE
+  DEV_UnnamedDef = TRUE
   MaxDepth = 5
   FullEvery = 1
 SPECIFICATION Spec
